@@ -3257,7 +3257,9 @@ class ISLaEmitter(IslaLanguageListener.IslaLanguageListener):
         assert len(nonterminal) > 2
 
         fresh_var = fresh_bound_variable(
-            self.used_variables | self.vars_for_free_nonterminals,
+            self.used_variables
+            | self.vars_for_free_nonterminals
+            | {self.constant.name},  # e.g., for the free nonterminal `<start>`
             BoundVariable(nonterminal[1:-1], nonterminal),
             add=False,
         )
